@@ -579,5 +579,52 @@ func TestVerifUnsatisfied(t *testing.T) {
 			}
 		}
 	}
+	// two parameters of ONE Go type that differ only by subtype (type-only or named):
+	// the hopeless one must be reported under its own label
+	for _, named := range []bool{false, true} {
+		for _, hopelessFirst := range []bool{true, false} {
+			n++
+			hp := label{"", "A", "x"}
+			ok := label{"", "A", "y"}
+			if named {
+				hp, ok = label{"p", "A", "x"}, label{"q", "A", "y"}
+			}
+			params := []label{hp, ok}
+			if !hopelessFirst {
+				params = []label{ok, hp}
+			}
+			var rec []binding
+			f, err := NewFunc(mkFunc("target", params, nil, &rec))
+			if err != nil {
+				t.Fatal(err)
+			}
+			res := f.Call(Logger(hclog.NewNullLogger()), inputArg(ok))
+			cerr := res.Err()
+			ue, isUE := cerr.(*ErrArgumentUnsatisfied)
+			var bad []string
+			if !isUE {
+				bad = append(bad, fmt.Sprintf("error is %T, not the unsatisfied-argument error", cerr))
+			} else {
+				found := false
+				for _, a := range ue.Args {
+					if a.Name == hp.name && a.Subtype == hp.sub {
+						found = true
+					} else {
+						bad = append(bad, fmt.Sprintf("Args lists %q/%q which has an exactly matching supplied value", a.Name, a.Subtype))
+					}
+					if !strings.Contains(ue.Error(), a.String()) {
+						bad = append(bad, "message does not mention "+a.String())
+					}
+				}
+				if !found {
+					bad = append(bad, "Args does not contain the hopeless parameter "+hp.String())
+				}
+			}
+			if len(bad) > 0 {
+				failures++
+				t.Errorf("FAILING-INPUT unsatisfied same-type params=%v supplied=%v: %s", params, ok, strings.Join(bad, "; "))
+			}
+		}
+	}
 	t.Logf("unsatisfied-argument scenarios run: %d, failing: %d", n, failures)
 }
